@@ -161,7 +161,7 @@ impl PathProp {
                 o.max_iters = if big { 300 } else { 150 };
             }
             "C04" => {
-                o.families = vec!["open", "open", "balls"];
+                o.families = vec!["open", "open", "balls", "zero_weight"];
                 o.angular_bias = rng.chance(0.8);
                 if o.angular_bias {
                     o.space_kinds = vec!["SO2", "SO2", "SO3", "SE2", "SE3", "Compound"];
@@ -173,7 +173,7 @@ impl PathProp {
                 o.min_frac = 0.01;
             }
             "C06" => {
-                o.families = vec!["sealed_goal", "sealed_goal", "sealed_start", "goal_invalid", "thin_wall", "thin_wall", "balls", "open", "shell_door", "zero_weight"];
+                o.families = vec!["sealed_goal", "sealed_goal", "sealed_start", "goal_invalid", "thin_wall", "thin_wall", "balls", "open", "shell_door", "zero_weight", "sealed_by_bounds"];
                 o.max_iters = if big { 300 } else { 120 };
             }
             _ => {}
@@ -249,6 +249,21 @@ impl Check for PathProp {
             scn.planner.max_distance = scn.param("ext").unwrap_or(1.0) * 0.2;
             scn.planner.connection_radius = scn.param("ext").unwrap_or(1.0) * 0.5;
             return scn;
+        }
+        // a share of the scenarios deliver samples from a small alphabet of awkward states
+        // (duplicates, seam and antipodal states, q / -q) before falling back to the sampler
+        if index % 7 == 6 {
+            let geo = crate::spaces::geo_for(&scn.space).unwrap();
+            let anchors = vec![scn.problems[0].starts[0].clone(), scn.problems[0].goal.target.clone()];
+            let asz = rng.usize_in(3, 8);
+            let alpha = crate::treechecks::alphabet(&*geo, &mut rng, &anchors, asz);
+            // the script stands in for sample_uniform, whose results lie inside the bounds
+            let alpha: Vec<St> = alpha.into_iter().filter(|s| crate::spaces::bounds_excess(&scn.space, s).0 == 0.0).collect();
+            if !alpha.is_empty() {
+                let n = rng.usize_in(4, 40);
+                scn.sampling.script = (0..n).map(|_| rng.pick(&alpha).clone()).collect();
+                scn.family = format!("{}+alphabet", scn.family);
+            }
         }
         match self.id {
             "C01" if index % 4 == 3 => {
@@ -598,7 +613,7 @@ impl Check for C07 {
         ]
     }
     fn required_probes(&self) -> Vec<&'static str> {
-        vec!["second_solve", "resetup", "perturbation_twin", "goal_sampler_consumes_rng", "prm_deadline_moved_within_iteration"]
+        vec!["second_solve", "resetup", "perturbation_twin", "resume_perturbation_twin", "goal_sampler_consumes_rng", "prm_deadline_moved_within_iteration"]
     }
     fn generate(&self, seed: u64, index: u64, tier: Tier) -> Scenario {
         let mut rng = Xo::new(mix(seed, "C07", index));
@@ -639,6 +654,14 @@ impl Check for C07 {
                 } else {
                     scn.calls = vec![CallSpec::Setup { problem: 0 }, solve_budget(a), CallSpec::Setup { problem: 0 }, solve_budget(b)];
                 }
+            }
+            6 if !prm => {
+                // interrupted and resumed, twice with the interruption at different points: time
+                // may only decide how many iterations the first call completes
+                let a = 1 + rng.below(20);
+                let b = it(&mut rng, &scn) + 30;
+                scn.calls = vec![CallSpec::Setup { problem: 0 }, solve_budget(a), solve_budget(b)];
+                scn.params.insert("resume_perturb".into(), (1 + rng.below(20)) as f64);
             }
             5 => {
                 // misuse first: solve before setup must not cost the planner its seeded generator
@@ -702,6 +725,53 @@ impl Check for C07 {
                         a.log.get(i).map(|e| e.kind_byte() as char),
                         b.log.get(i).map(|e| e.kind_byte() as char)
                     ),
+                ));
+            }
+        }
+        // resume perturbation: the same history with the first solve interrupted elsewhere (and
+        // another clock pattern). The planner's sampling stream over both calls must be the same
+        // sequence (one is a prefix of the other), and two successful final calls return the
+        // same path.
+        if let (Some(a2), true) = (scn.param("resume_perturb"), v.is_empty()) {
+            rep.probe("resume_perturbation_twin");
+            let mut s2 = scn.clone();
+            s2.clock.tick_ns = scn.clock.tick_ns * 3 + 1;
+            s2.clock.cost_valid = vec![7, 0];
+            s2.clock.cost_goal = vec![];
+            let total: u64 = scn.calls.iter().map(|c| if let CallSpec::Solve { stalls, .. } = c { stalls.first().map(|s| s.nth).unwrap_or(0) } else { 0 }).sum();
+            let a2 = a2 as u64;
+            s2.calls = vec![CallSpec::Setup { problem: 0 }, solve_budget(a2), solve_budget(total.saturating_sub(a2).max(1))];
+            let c = run(&s2, &RunOpts::default());
+            rep.absorb(&c);
+            // everything up to and including each run's FIRST successful solve is comparable (what
+            // a planner does when asked again after a success is another matter)
+            let first_ok = |o: &crate::sim::Outcome| -> Option<usize> { o.calls.iter().position(|x| matches!(x.res, Res::Path(_))) };
+            let (fa, fc) = (first_ok(&a), first_ok(&c));
+            let samples = |o: &crate::sim::Outcome, upto: Option<usize>| -> Vec<Ev> {
+                let hi = upto.map(|ci| o.calls[ci].ev_hi).unwrap_or(o.log.len());
+                o.log[..hi].iter().filter(|e| e.phase() == Some(Phase::Sample)).cloned().collect()
+            };
+            let (sa, sc) = (samples(&a, fa), samples(&c, fc));
+            let n = sa.len().min(sc.len());
+            if let Some(i) = (0..n).find(|i| !ev_bits_eq(&sa[*i], &sc[*i])) {
+                v.push(viol(
+                    "C07",
+                    format!("C07/interruption_changes_decisions/{pk}"),
+                    format!("the same seeded history with the first solve interrupted after {a2} instead of {} iterations draws a different {i}-th sample: where the deadline fell changed which decisions were taken", scn.calls.iter().find_map(|c| if let CallSpec::Solve { stalls, .. } = c { stalls.first().map(|s| s.nth) } else { None }).unwrap_or(0)),
+                ));
+            } else if let (Some(ia), Some(ic)) = (fa, fc) {
+                if !res_bits_eq(&a.calls[ia].res, &c.calls[ic].res) {
+                    v.push(viol(
+                        "C07",
+                        format!("C07/interruption_changes_result/{pk}"),
+                        "the same seeded history interrupted at another point returns a different first path although the sampling stream is the same".into(),
+                    ));
+                }
+            } else if fa.is_some() != fc.is_some() && sa.len() == sc.len() {
+                v.push(viol(
+                    "C07",
+                    format!("C07/interruption_changes_outcome/{pk}"),
+                    "the same seeded history with the same total number of iterations finds a path when interrupted at one point and none when interrupted at another".into(),
                 ));
             }
         }
@@ -1012,6 +1082,19 @@ impl Check for C08 {
         let mut scn = gen::base(&mut rng, "C08", seed, index, &o);
         if rng.chance(0.3) {
             with_setup_histories(&mut scn, &mut rng, 40);
+        }
+        // time limits from 0 upward are well-formed input too
+        if rng.chance(0.25) {
+            let t = match rng.below(3) {
+                0 => 0,
+                1 => scn.clock.tick_ns.saturating_mul(1 + rng.below(30)),
+                _ => 1 + rng.below(5000),
+            };
+            for c in &mut scn.calls {
+                if let CallSpec::Solve { timeout_ns, .. } = c {
+                    *timeout_ns = t;
+                }
+            }
         }
         scn.params.insert("c08_range".into(), 4.0);
         scn
